@@ -31,7 +31,7 @@ extern decltype(drv_vss_decode) A_drv_vss_decode, Z_drv_vss_decode;
 extern decltype(drv_vss_encode) A_drv_vss_encode, Z_drv_vss_encode;
 extern decltype(drv_vss_pad) A_drv_vss_pad, Z_drv_vss_pad;
 }
-extern "C" { extern decltype(drv_vss_strarr_pack) A_drv_vss_strarr_pack, Z_drv_vss_strarr_pack; extern decltype(drv_vss_strarr_count) A_drv_vss_strarr_count, Z_drv_vss_strarr_count; extern decltype(drv_generic_field) A_drv_generic_field, Z_drv_generic_field; }
+extern "C" { extern decltype(drv_vss_strarr_pack) A_drv_vss_strarr_pack, Z_drv_vss_strarr_pack; extern decltype(drv_vss_strarr_count) A_drv_vss_strarr_count, Z_drv_vss_strarr_count; extern decltype(drv_generic_field) A_drv_generic_field, Z_drv_generic_field; extern decltype(drv_vss_strarr_unpack) A_drv_vss_strarr_unpack, Z_drv_vss_strarr_unpack; extern decltype(drv_can_payload_two_ways) A_drv_can_payload_two_ways, Z_drv_can_payload_two_ways; }
 static int g_inc = 0;
 #define DRV(name) (g_inc == 1 ? A_##name : g_inc == 2 ? Z_##name : name)
 
@@ -713,6 +713,25 @@ static void exec(const std::string &text, bool verbose) {
             if (memcmp(packed.data(), ref.data(), ref.size()) != 0 || packed[ref.size()] != 0x7e || packed[ref.size() + 1] != 0x7e)
                 violation("bytes:Vss.<strarr>", strf("the packed block of %d strings differs from 16-bit length + bytes per string, or bytes behind it were written", n));
             check_bytes("Vss.<strarr>", "after packing a string array into a buffer of its own (the message is not an argument)");
+            // ... and unpacking yields the strings again, whatever the destination descriptors' length fields held before (they are outputs)
+            if (n >= 1) {
+                std::vector<std::vector<char>> dst(n);
+                std::vector<char *> dp(n);
+                std::vector<uint16_t> ol(n, 0xEEEE);
+                for (int k = 0; k < n; k++) { dst[k].assign(L[k] + 8, 0x7e); dp[k] = dst[k].data(); }
+                char **dpp = dp.data();
+                uint16_t *olp = ol.data();
+                uint16_t stale2 = (uint16_t)(sr.chance(0.5) ? sr.below(4) : sr.below(65536));
+                std::vector<uint8_t> pk(packed.begin(), packed.begin() + ref.size() + 8);
+                uint8_t *pkp = pk.data();
+                DIRTY();
+                (void)DRV(drv_vss_strarr_unpack)(pkp, (uint16_t)ref.size(), n, dpp, stale2, olp);
+                per_entry["entry.vss_string_array_unpack"]++;
+                for (int k = 0; k < n; k++)
+                    if (ol[k] != L[k] || memcmp(dst[k].data(), strs[k].data(), L[k]) != 0 || dst[k][L[k]] != 0x7e)
+                        violation("read:Vss.<strarr>:unpack", strf("string %d of %d comes back with length %u (packed: %u; the destination's length field held %u before the call), or with other bytes",
+                                                                   k, n, ol[k], L[k], stale2));
+            }
             // counting the strings is a read, also when the length in the descriptor cuts the last string short (a truncated message):
             // the block lies in a read-only page of its own
             if (n >= 1 && ref.size() >= 3) {
@@ -872,6 +891,18 @@ static void exec(const std::string &text, bool verbose) {
             per_entry["entry.build." + kind]++;
             check_bytes(strf("%s.<build>:%s", f->name, kind.c_str()), strf("after the %s builder (%s) with id 0x%x, %zu payload bytes, variant %d", f->name, kind.c_str(), cid, len, variant));
             // what the message says about its own payload must agree as well
+            if (!brief && len >= 2 && kind == "create") {
+                // the payload reached through the returned pointer and through the message in one optimised caller
+                uint8_t b0 = mpdu[hdr], b1 = mpdu[hdr + 1];
+                uint64_t tw = DRV(drv_can_payload_two_ways)(pdu, (uint8_t)(b0 ^ 0x5a), b0);
+                // (leaves byte 0 as it was and byte 1 = b0 ^ 0x5a; restore byte 1 in the model's sense)
+                if ((tw & 0xff) != b0 || ((tw >> 8) & 0xff) != (uint8_t)(b0 ^ 0x5a))
+                    violation("read:Can.<payload-pointer>", strf("a caller that stores through the pointer Avtp_Can_GetPayload returns and through the message reads back 0x%02x / 0x%02x instead of 0x%02x / 0x%02x: "
+                                                                 "what the header promises the compiler about that pointer is not true", (unsigned)(tw & 0xff), (unsigned)((tw >> 8) & 0xff), b0, (uint8_t)(b0 ^ 0x5a)));
+                pdu[hdr + 1] = b1;
+                per_entry["entry.can_payload_pointer_and_message"]++;
+                check_bytes("Can.<payload-pointer>", "after storing through the payload pointer and through the message");
+            }
             if (!brief && len <= 64 && (kind == "create" || kind == "finalize")) {
                 uint64_t got = DRV(drv_can_payload_length)(pdu);
                 if (got != len) violation(strf("read:%s.<payload-length>", f->name), strf("Avtp_Can_GetCanPayloadLength returned %llu after the %s builder ran with %zu payload bytes", (unsigned long long)got, kind.c_str(), len));
